@@ -30,6 +30,15 @@ def representations(b, rng):
             if len(s['angular_momentum']) == 1:
                 rng.shuffle(s['coefficients'])
     reps.append(('shuffled', sh))
+    # every contraction multiplied by a power of two (exact in decimal and in binary): the same function space; a lone
+    # primitive written with a coefficient other than 1 is the simplest case
+    from decimal import Decimal
+    sc = copy.deepcopy(b)
+    for el in sc['elements'].values():
+        for s in el.get('electron_shells', []):
+            s['coefficients'] = [[str(Decimal(c.strip()) * f) for c in col] for col, f in
+                                 ((col, Decimal(rng.choice(['0.5', '2', '4', '0.25']))) for col in s['coefficients'])]
+    reps.append(('scaled', sc))
     return reps
 
 
@@ -208,6 +217,18 @@ def work_store(ctx, item):
         ctx.case((name, version, 'get_aux', aux), True, 'get_aux')
         if a[0] == 'ok' and (c[0] != 'ok' or a[1]['elements'] != c[1]['elements']):
             ctx.violation('api.get_basis[get_aux]', 'representation', 'get_aux=%d differs with make_general' % aux, {'kind': 'get_aux', 'name': name})
+        # with augmentation: the auxiliary basis of the augmented orbital basis
+        from basis_set_exchange import manip
+        for kw in ({'augment_diffuse': 1}, {'augment_steep': 1, 'make_general': True}):
+            o = impl.call(bse.get_basis, name, version=version, elements=list(b['elements']), **kw)
+            g = impl.call(bse.get_basis, name, version=version, elements=list(b['elements']), get_aux=aux, **kw)
+            if o[0] != 'ok':
+                continue
+            w = impl.call(manip.autoaux_basis if aux == 1 else manip.autoabs_basis, o[1])
+            ctx.case((name, version, 'get_aux+augment', aux, tuple(kw)), True, 'get_aux+augment')
+            if w[0] != g[0] or (w[0] == 'ok' and w[1]['elements'] != g[1]['elements']):
+                ctx.violation('api.get_basis[get_aux]', 'augmented', 'get_basis(get_aux=%d, %s) is not the auxiliary basis of the augmented orbital basis' % (aux, kw),
+                              {'kind': 'get_aux', 'name': name, 'version': version})
 
 
 def work_generated(ctx, seed):
@@ -225,8 +246,8 @@ def work_generated(ctx, seed):
 
 def run(ctx):
     ctx.rule = ('autoaux_basis / autoabs_basis on orbital store basis sets (elements chosen around the Z thresholds) and generated '
-                'orbital dictionaries, each in six representations (original, general, uncontracted-general, spdf-split, sorted, '
-                'shuffled shells/primitives/contractions): identical output required; covered elements, shell shape, caps, AutoAux '
+                'orbital dictionaries, each in seven representations (original, general, uncontracted-general, spdf-split, sorted, '
+                'shuffled shells/primitives/contractions, contractions scaled by powers of two): identical output required; covered elements, shell shape, caps, AutoAux '
                 'ratios and ladder starts re-derived independently; the coupling / cap / ladder / grouping logic of the extracted model '
                 'is run on the implementation\'s own per-momentum floats and compared with the output to 6 digits. Non-trivial = a '
                 're-contracted or shuffled representation')
